@@ -158,6 +158,11 @@ func (v *viewT) build(k kindT) sdk.View {
 	case 3:
 		crit = sdk.Instrument{Kind: kinds[k].sdk}
 	}
+	return sdk.NewView(crit, v.mask(k))
+}
+
+// mask is the stream mask of the view (what it changes), for an instrument of kind k.
+func (v *viewT) mask(k kindT) sdk.Stream {
 	mask := sdk.Stream{Name: v.rename, Description: v.desc}
 	if v.hasFilter {
 		byValue := false
@@ -195,7 +200,7 @@ func (v *viewT) build(k kindT) sdk.View {
 			mask.Aggregation = expoAgg
 		}
 	}
-	return sdk.NewView(crit, mask)
+	return mask
 }
 
 // ---------------------------------------------------------------------------
@@ -566,6 +571,8 @@ type realPoint struct {
 
 type metricOut struct {
 	name, desc, form string
+	scope            scopeT // filled in by the jobs with several instruments (c12_multi_test.go)
+	unit             string
 	points           map[string]realPoint
 	n                int
 	dups             []string
@@ -1156,6 +1163,7 @@ func TestVerifC12(t *testing.T) {
 			jobs = append(jobs, "dropreader/"+k.name+"/"+tp)
 		}
 	}
+	jobs = append(jobs, multiJobs()...)
 	enum.Jobs(jobs, func(job string) {
 		r := enum.Start("C12", "conserve")
 		defer r.Finish()
@@ -1171,6 +1179,10 @@ func TestVerifC12(t *testing.T) {
 		r.Bound("instrument_kinds", len(kinds))
 		r.Bound("temporalities", 2)
 		switch parts[0] {
+		case "criteria":
+			runCriteria(r, kind, parts[2] == "delta")
+		case "bystander":
+			runBystander(r, kind, parts[2] == "delta")
 		case "limit":
 			// no views: the limiter alone, longest sequences
 			h := newHarness(r, universe(false))
